@@ -153,13 +153,27 @@ def _discharge(F, f, b, par, kind, x, text):
             # TopicFilter::is_invalid: shared_group_sep + 1 with shared_group_sep in {0, 6}
             if root == "common::types::TopicFilter::is_invalid" and pp(strip(x["l"])) == "shared_group_sep":
                 return "table: shared_group_sep is 0 or 6"
+        if kind == "AddAssign" and const_eval(x["r"]) == 1:
+            # early-exit form: `if c >= K { return .. }` earlier in the same block
+            cname = pp(strip(x["l"]))
+            for a in _ancestors(par, x):
+                if a.get("k") == "Block":
+                    for s in a.get("stmts", []):
+                        if any(x is z for z in walk_all(s)):
+                            break
+                        e = s.get("e")
+                        if isinstance(e, dict) and e.get("k") == "If":
+                            c = unblock(e["cond"])
+                            if c.get("k") == "Binary" and c["op"] in ("Ge", "Gt", "Eq") and pp(strip(c["l"])) == cname and const_eval(c["r"]) is not None \
+                                    and (unblock(e["then"]).get("ty") == "!" or any(z.get("k") == "Return" for z in walk_all(e["then"]))):
+                                return "G-ctr: increment after `%s %s %d -> return`" % (cname, c["op"], const_eval(c["r"]))
         if kind == "Mul" and ty == "u32":
             # 7 * var_idx with var_idx <= 3 (cap checked by T-varint2)
             if const_eval(x["l"]) == 7 or const_eval(x["r"]) == 7:
                 return "G-ctr: 7 * index with index <= 3 (T-varint2 cap)"
         return None
     if kind == "Shl":
-        r = strip(x["r"])
+        r = _resolve_let(b, strip(x["r"]))
         if r.get("k") == "Binary" and r["op"] == "Mul" and 7 in (const_eval(r["l"]), const_eval(r["r"])):
             return "G-ctr: shift by 7 * index with index <= 3 (T-varint2 cap), < 32"
         return None
@@ -209,9 +223,19 @@ def _discharge(F, f, b, par, kind, x, text):
         a0 = strip(x["args"][0])
         s = pp(a0)
         if s.lstrip("*") == "control_byte":
-            # G-some-set: the loop before this statement breaks only from the else-branch of `if control_byte.is_none() { *control_byte = Some(..) }`
-            ok = _control_byte_set(b)
-            return "G-some-set: the header loop exits only after control_byte was stored" if ok else None
+            # G-some-set: evaluated transfer function of the header state: from control_byte == None the first byte is
+            # stored and the loop continues; Header::new_with receives the stored byte (no unwrap of None is reachable)
+            try:
+                from r_pollpe import PollRun, header_state, byte
+                from peval import NONE as _N
+                b0, b1 = byte(0, False), byte(1, False)
+                pr = PollRun(F, header_state(_N, 0, 0), [("byte", b0), ("byte", b1)], new_with=__import__("peval").err(__import__("peval").Sym("E"))).run()
+                nw = [c for c in pr.calls if c[0] == "new_with"]
+                if pr.outcome[0] == "returned" and len(nw) == 1 and nw[0][1] == b0 and not any(ev[0] == "panic" for ev in pr.pe.events):
+                    return "G-some-set: the header loop exits only after control_byte was stored (evaluated: first byte -> stored, second byte -> new_with(first byte, ..))"
+            except Exception:
+                pass
+            return None
         if a0.get("k") == "Call" and a0["fn"].get("def") == "common::types::QoS::from_u8":
             v = pp(strip(a0["args"][0]))
             for a in _ancestors(par, x):
@@ -252,6 +276,21 @@ def _discharge(F, f, b, par, kind, x, text):
     if kind in ("index_mut",):
         return None
     return None
+
+
+def _resolve_let(b, e):
+    """A local variable stands for its (single) initialiser."""
+    if e.get("k") == "Var":
+        vid = e["var"]["id"]
+        inits = []
+        for n in walk_all(b):
+            if n.get("k") == "Block":
+                for s in n.get("stmts", []):
+                    if s["k"] == "Let" and s["pat"].get("k") == "Binding" and s["pat"]["var"]["id"] == vid and s.get("init") is not None:
+                        inits.append(s["init"])
+        if len(inits) == 1:
+            return strip(inits[0])
+    return e
 
 
 def _same_vec(a, b):
@@ -350,7 +389,8 @@ def s_loop(F, R):
                 for s in (body.get("stmts", []) if body.get("k") == "Block" else []):
                     e = s.get("init") if s["k"] == "Let" else s.get("e")
                     for y in walk_all(e or {}):
-                        if y.get("k") == "Call" and y["fn"].get("name") in ("read_exact", "poll_read"):
+                        if y.get("k") == "Call" and (y["fn"].get("name") in ("read_exact", "poll_read") or
+                                                      (y["fn"].get("res") or y["fn"].get("def") or "").startswith("common::utils::read_")):
                             reads.append(y)
                         if y.get("k") in ("If", "Loop", "While"):
                             pass
